@@ -1,5 +1,5 @@
 """Per-property configuration of the checks (see DESIGN.md §6)."""
-from vlib import run_verus_property
+from vlib import run_verus_property, run_kani_property
 
 PRELUDE = ["00_prelude.vrs"]
 STACK = ["10_stack.vrs"]
@@ -48,6 +48,26 @@ PROPS = {
                        "nothing is left over at top level; NumOpens impls are under contract (only DupBlock/When/Unless = 1, IfElse = 2).",
         "assumptions": ["vstd's prophetic model of std::vec::IntoIter (remaining/next)",
                         "axiom_exhausted_into_iter_measure: an exhausted vec::IntoIter has termination measure 0"],
+    },
+    "C10": {
+        "steps": [run_kani_property], "level": "model_checking",
+        "kani": [
+            {"name": "c10::p_c10_two_point_vec", "bound": "genome length <= 3; all random streams (4 symbolic words)", "what": "TwoPointXo on [Vec<T>;2], tagged genes"},
+            {"name": "c10::p_c10_two_point_vec_tuple", "bound": "genome length <= 3; all random streams (4 symbolic words)", "what": "TwoPointXo on (Vec<T>,Vec<T>)"},
+            {"name": "c10::p_c10_uniform_vec", "bound": "genome length <= 3; all random streams (4 symbolic words)", "what": "UniformXo on [Vec<T>;2]"},
+            {"name": "c10::p_c10_two_point_bitstring", "bound": "genome length <= 3; all random streams (4 symbolic words)", "what": "TwoPointXo on [Bitstring;2] via Crossover"},
+            {"name": "c10::p_c10_uniform_bitstring", "bound": "genome length <= 3; all random streams (4 symbolic words)", "what": "UniformXo on (Bitstring,Bitstring) via Crossover"},
+            {"name": "c10::p_c10_bitstring_gene", "bound": "genome lengths <= 3 (equal or different), all bit values, index 0..=5", "what": "Bitstring::crossover_gene"},
+            {"name": "c10::p_c10_bitstring_segment", "bound": "genome lengths <= 3 (equal or different), all bit values, ranges start<=end<=5", "what": "Bitstring::crossover_segment"},
+            {"name": "c10::p_c10_two_point_vec_n5", "tier": "thorough", "bound": "genome length <= 5; all random streams (4 symbolic words)", "what": "TwoPointXo on [Vec<T>;2], tagged genes"},
+            {"name": "c10::p_c10_uniform_vec_n5", "tier": "thorough", "bound": "genome length <= 5; all random streams (6 symbolic words)", "what": "UniformXo on [Vec<T>;2]"},
+            {"name": "c10::p_c10_two_point_bitstring_n5", "tier": "thorough", "bound": "genome length <= 5; all random streams (4 symbolic words)", "what": "TwoPointXo on [Bitstring;2]"},
+            {"name": "c10::p_c10_uniform_bitstring_n5", "tier": "thorough", "bound": "genome length <= 5; all random streams (6 symbolic words)", "what": "UniformXo on (Bitstring,Bitstring)"},
+            {"name": "c10::p_c10_bitstring_gene_n5", "tier": "thorough", "bound": "genome lengths <= 5, all bit values, index 0..=7", "what": "Bitstring::crossover_gene"},
+            {"name": "c10::p_c10_bitstring_segment_n5", "tier": "thorough", "bound": "genome lengths <= 5, all bit values, ranges start<=end<=7", "what": "Bitstring::crossover_segment"},
+        ],
+        "explanation": "Kani/CBMC on the real compiled crates with a symbolic random stream (every word handed to rand is unconstrained).",
+        "assumptions": ["rand 0.9 is executed, not modelled; uniformity of its words is assumed"],
     },
     "C04": {
         "templates": PRELUDE + STD + STACK + MAIN, "extern": True,
